@@ -181,15 +181,18 @@ def case_checks(case, r, expect_ok=True):
         out += ['false', 'false'] if expect_ok else [T, T]
     else:
         parts = []
+        # relative tolerance 2^-40 (kernels: float64 about a local point; measured worst 2^-48.7 over the
+        # generator's meshes incl. offsets 2e7 and scales 2^-13); float32 coordinates: tet kernel runs in float32
+        vtol = 20 if case.get('dtype') == 'float32' else 40
         for typ, es in case['blocks'].items():
             vs = lib.coq_list(['(%s, %s)' % (lib.coq_Z(a), lib.coq_Z(b))
                                for a, b in (unscale(x, case, 3) for x in v[typ])])
             eslit = lib.coq_list(['(%s, %s)' % (lib.coq_Z(e[0]), zl(e[1])) for e in es])
-            parts.append(f'check_block_volumes pos{i} {COQ_TYPE[typ]} {eslit} {vs}')
+            parts.append(f'check_block_volumes_k {vtol} pos{i} {COQ_TYPE[typ]} {eslit} {vs}')
         out.append(' && '.join(parts) if parts else T)
         tot = lib.coq_list(['(%s, %s)' % (lib.coq_Z(a), lib.coq_Z(b))
                             for a, b in (unscale(x, case, 3) for x in v['_total'])])
-        out.append(f'sum_fracs_close (mesh_vol24 ZOps pos{i} m{i}) {tot}')
+        out.append(f'sum_fracs_close_k {vtol} (mesh_vol24 ZOps pos{i} m{i}) {tot}')
     ob = r.get('obj')
     if ob is None or is_err(ob):
         out += [T, T] if ob is None or is_err(s) else ['false', 'false']
@@ -653,9 +656,8 @@ def gen_cases(ctx, widened=False):
             c['scale'] = list(sc)
             c['meta'] = dict(c['meta'], scale='%d/%d' % sc)
         # far from the origin (exact integer offsets ~1e6..1e7 cell sizes, also combined with the small
-        # scales): the surface and the OBJ text must not care; volumes are not requested there (femio's
-        # centroid volume kernels accumulate origin-based determinants in float32 and lose all accuracy at
-        # such offsets — a C11 matter, see notes/C10.md)
+        # scales): the surface, the OBJ text and (since /repo 38049d8: kernels relative to a local point,
+        # float64) the volumes must not care (C10_volume_translate)
         if k % 10 == 2 and 'scale' not in c:
             # coordinate dtype other than float64 (integer coordinates of the lattice are exact in all)
             c['dtype'] = ['float32', 'int64', 'int32'][(k // 10) % 3]
@@ -663,7 +665,6 @@ def gen_cases(ctx, widened=False):
         if k % 6 == 5:
             c['offset'] = [rng.choice([-1, 1]) * rng.randint(2 * 10 ** 6, 2 * 10 ** 7) for _ in range(3)]
             c['meta'] = dict(c['meta'], offset='1e6..1e7')
-            c['want'] = [w for w in want_for(c) if w != 'volumes']
         cases.append(c)
     # same-object histories: several rounds of views on ONE object; every later view is compared with
     # the model and with the exact oracle, and must equal the earlier one
